@@ -75,6 +75,12 @@ TRun ==
                /\ \E ch \in Cfg.randVals, pk \in Cfg.epOrders : s' = [Effect([s0 EXCEPT !.ch = ch, !.pick = pk], [kind |-> "input", e |-> Tr[ln]]) EXCEPT !.ch = 0, !.pick = <<>>]
                /\ MatchFrom(Tail(s'.outs), ln + 1)
                /\ ln' = ln + Len(s'.outs)
+          ELSE IF c.kind = "appcall"      \* a call the application queued with call_soon: logged (as an input line) when it runs
+          THEN /\ More /\ Tr[ln].k = "in" /\ Tr[ln].t = now
+               /\ \A f \in DOMAIN c.e : f \in DOMAIN Tr[ln] /\ Tr[ln][f] = c.e[f]
+               /\ \E ch \in Cfg.randVals, pk \in Cfg.epOrders : s' = [Effect([s0 EXCEPT !.ch = ch, !.pick = pk], c) EXCEPT !.ch = 0, !.pick = <<>>]
+               /\ MatchFrom(Tail(s'.outs), ln + 1)
+               /\ ln' = ln + Len(s'.outs)
           ELSE /\ \E ch \in Cfg.randVals, pk \in Cfg.epOrders : s' = [Effect([s0 EXCEPT !.ch = ch, !.pick = pk], c) EXCEPT !.ch = 0, !.pick = <<>>]
                /\ MatchFrom(s'.outs, ln)
                /\ ln' = ln + Len(s'.outs)
